@@ -9,6 +9,8 @@ from sa.effects import class_accesses
 from sa.selftest import Mutant, Silent
 from sa.source import AnalysisError
 from sa.props._lib_e_machine import PyRaise, exc_name
+from sa.props._lib_e_struct import (c20_cookies, c20_finish_valuations, c20_foreign_headers, c20_headers_store, c20_persistence_framing, c20_status_provenance,
+                                    c20_write_valuations, structural)
 from sa.props._lib_e_http import Harness, WireError, check_name_encoder_behaviour, parse_responses
 from sa.props._lib_e import (assigns_self, call_in, calls_named, check_name_encoder, check_token_validator, http_interp, is_const, local_values, make_env,
                              no_exc, ordered, resolve_local, self_attr, walk)
@@ -21,20 +23,22 @@ Q = "twisted.web.http."
 QR = Q + "Request."
 SAN = "_sanitizeLinearWhitespace"
 
-TECHNIQUE = 'AST interpretation of Request/HTTPChannel/Headers; emitted bytes read back by an independent strict parser'
+TECHNIQUE = 'provenance at wire sinks + guard valuations of write/finish/checkPersistence; bounded parse-back of emitted bytes'
 EXPLANATION = (
-    'The repository source is never imported or run: an AST interpreter (sa/props/_lib_e_machine.py) executes the syntax trees of web/http.py, http_headers'
-    '.py, _abnf.py, protocols/basic.py, policies.py and internet/protocol.py with model collaborators (transport, clock, network producer, body file) whose'
-    ' inputs are observable; unknown externals are opaque values that fork the path. Helper methods are simply executed, so extract/inline-helper, guard-cl'
-    'ause, temporaries, comprehension refactorings do not matter. Decided: for combinations of version, method, status code, Content-Length set/unset/clear'
-    'ed/removed, Connection header and write sequences (incl. empty writes and bodies that look like chunk terminators) the bytes on the model transport pa'
-    'rse - with a strict reader written in the checker - as exactly one response with that status, exactly the headers set, the concatenated body (none for'
-    ' HEAD/204/304), and are self-delimited (Content-Length or chunked) whenever the connection stays open; HTTP/1.1 persistence follows Connection: close;'
-    ' hostile header values / reason phrases (CR, LF, CRLF, response splitting, text, non-ASCII) via setHeader, addRawHeader, setRawHeaders, setResponseCod'
-    'e and the plain-pairs path of writeHeaders stay inside their field with line breaks replaced by spaces; invalid header names are refused every time; c'
-    'ookies with hostile pieces in every field produce one Set-Cookie with exactly name=value and the attributes given; finish twice / late write / HEAD la'
-    'ter writes. Pure helpers (_sanitizeLinearWhitespace, toChunk, _istoken) are evaluated over every byte value. Not decided: Content-Length supplied by t'
-    'he application matching the body it writes; lastModified formatting.'
+    'Structural and finite-exhaustive rules run on a normalised view (private helpers inlined at their call sites, temporaries followed by partial evaluati'
+    'on, guard clauses read through the CFG) and abstain with a note when a shape is not recognised; the bounded layer (source interpreted by an AST interp'
+    'reter with model collaborators, compared with an oracle) covers every clause a second time and is the only evidence where stated. STRUCTURAL: every st'
+    'ore into Headers._rawHeaders (closed over the class, aliases and helpers followed) puts _sanitizeLinearWhitespace(...) values under _nameEncoder.encod'
+    'e(...) names and web/http.py never touches the store (provenance/, headers/); at the sink Request.write -> writeHeaders the reason is sanitised, the c'
+    'ode numeric-formatted, the version the validated clientproto and header mutations precede the write (status/, headers/); plain header pairs reach the '
+    'wire only through a fresh Headers() filled by addRawHeader (provenance/foreign-iterable-rebuilt); cookie pieces are literals / _sanitize()d / checked '
+    'against constants (cookie/); name-encoder cache discipline (header-name/). FINITE-EXHAUSTIVE: _sanitizeLinearWhitespace, toChunk, _istoken over every '
+    'byte value / length class (sanitiser/, chunk/, byte-class/); Request.write, finish and checkPersistence under every valuation of their guards - versio'
+    'n x Content-Length x method x code x data x started/chunked/finished/disconnected x Connection header: chunked iff HTTP/1.1 and no length and body all'
+    'owed, no body and later writes disabled for HEAD/204/304, empty writes emit nothing, terminator iff chunked and once, persistent only when self-delimi'
+    'ted (body/, finish/, persistence/). BOUNDED ONLY: the emitted bytes parse as exactly one response with exactly the headers set (response/, injection/)'
+    ' - the status-line / header-line layout and the cleared-Content-Length case are decided by parse-back only. Not decided: application-supplied Content-'
+    'Length matching the body.'
 )
 ASSUMPTIONS = [
     'CPython semantics for the builtin values the interpreter delegates to',
@@ -367,12 +371,30 @@ def _once(ctx, H):
     ctx.check(ok, "response/no-body-for-head", QR + "write", f"HEAD with two writes emits {o.value[0][:200] if o.kind == 'ok' else o.exc_name!r}; no body bytes may follow the header block, also for later writes")
 
 
+RULE_KINDS = {
+    "sanitiser/": "finite-exhaustive", "chunk/": "finite-exhaustive", "byte-class/": "finite-exhaustive",   # pure functions over every byte value / length class
+    "body/": "finite-exhaustive", "finish/": "finite-exhaustive", "persistence/": "finite-exhaustive",    # every valuation of the guards of Request.write / finish / checkPersistence (inlined)
+    "status/": "structural", "headers/": "structural", "cookie/": "structural", "provenance/": "structural",   # provenance at the sinks, who-may-write
+    "header-name/cache": "structural", "header-name/validated": "structural", "header-name/invalid-raises": "structural",
+    "header-name/invalid-refused-every-time": "bounded", "header-name/canonical-form": "bounded",
+    "response/": "bounded", "injection/": "bounded",
+}
+
+
 def check(ctx):
     I = http_interp(ctx)
     with ctx.section("sanitisers"):
         _sanitisers(ctx, I)
     with ctx.section("token validator"):
         check_token_validator(ctx, I)
+    structural(ctx, "C20 header store provenance", lambda s: c20_headers_store(s), "injection/header-value (bounded)")
+    structural(ctx, "C20 header-name encoder cache discipline", lambda s: check_name_encoder(s, I), "injection/header-name-refused (bounded)")
+    structural(ctx, "C20 status line provenance at the sink", lambda s: c20_status_provenance(s), "injection/reason-phrase (bounded)")
+    structural(ctx, "C20 foreign header pairs rebuilt", lambda s: c20_foreign_headers(s), "injection/foreign-header-pairs (bounded)")
+    structural(ctx, "C20 cookie pieces provenance", lambda s: c20_cookies(s), "injection/cookie (bounded)")
+    structural(ctx, "C20 Request.write over all guard valuations", lambda s: c20_write_valuations(s, I), "response/one-well-framed-response (bounded)")
+    structural(ctx, "C20 Request.finish over all guard valuations", lambda s: c20_finish_valuations(s, I), "response/one-well-framed-response, response/finished-once (bounded)")
+    structural(ctx, "C20 persistence vs framing over all guard valuations", lambda s: c20_persistence_framing(s, I), "response/one-well-framed-response (bounded)")
     H = Harness(ctx)
     with ctx.section("header name encoder"):
         check_name_encoder_behaviour(ctx, H)
